@@ -60,6 +60,16 @@ def structured(tier):
             evs += recover_events(fails, cm)
             evs += ["A:537", "F:p:69", "F:f"]
         yield (cfg, 1, script, evs)
+    # the library's own connection classes on a scripted network (asyncio.open_connection / open_serial_connection
+    # answer ok / raise / never): refused, hung (CONNECT_TIMEOUT) and successful attempts, first connect and reconnects
+    for kind in ("t", "s"):
+        for fails in ((), ("h",), ("e",), ("e", "h"), ("h", "h", "e")):
+            for fault in ("eof", "timeout", "wraise"):
+                evs = [f"K:{kind}", "C", "F:p:69"] + FAULTS[fault] + recover_events(fails, "o") + ["A:537", "F:p:69", "F:f"]
+                yield (3, 1, ["ooo"] + list(fails) + ["ooo"], evs)
+        for first in ("h", "e"):
+            yield (3, 1, [first, "ooo"], [f"K:{kind}", "C", "A:5037", "A:20037", "F:p:69", "X", "A:537", "F:p:69"])
+            yield (2, 0, [first, "ooo"], [f"K:{kind}", "C", "A:5037", "A:1037", "C", "F:p:69"])
     # the peer stalls at every cut point of a frame (before the delimiter, inside the header, right after it, inside
     # the body, before the last byte): the read in progress must time out READER_TIMEOUT after it STARTED
     for k in range(0, 15):
@@ -81,6 +91,9 @@ def randomized(rng, n):
         rc = rng.choice([1, 1, 1, 0])
         script = connhist.gen_script(rng, rng.randint(0, 10))
         evs = ["C"] + [connhist.gen_event(rng, W) for _ in range(rng.randint(3, 40))]
+        k = rng.random()
+        if k < 0.2:
+            evs = [rng.choice(["K:t", "K:s"])] + evs
         yield (cfg, rc, script, evs)
 
 
@@ -142,7 +155,8 @@ def run(ctx):
                 "back-off, repeated cycles; systematic product (fault kind x fault position x failed attempts x wait_closed "
                 "mode x cycles x consumers_count), 'gated' histories (loss while frame consumers are mid-frame behind a slow "
                 "subscriber of the protocol's new-device event, released before / during / after the outage), stalls of the peer at "
-                "every cut point of a frame, plus seeded random histories; distinct = distinct history text; "
+                "every cut point of a frame, the library's TcpConnection / SerialConnection on a scripted network (open answers ok / raises / "
+                "never returns), frames with an undecodable payload, plus seeded random histories; distinct = distinct history text; "
                 "non-trivial = at least one connection loss was handled (a transport was closed)")
     check_tables(res)
     hists, labels = [], []
